@@ -579,12 +579,18 @@ func (c *compiler) compileFunc(compilerScope compilerScopeType, Ast ast.Ast, Arg
 	c.Exprs(Args.Defaults)
 
 	// KwDefaults
+	// KwDefaults is parallel to Kwonlyargs, nil = no default
 	if len(Args.KwDefaults) > len(Args.Kwonlyargs) {
 		panic("compile: more KwDefaults than Kwonlyargs")
 	}
+	kwdefaults := uint32(0)
 	for i := range Args.KwDefaults {
+		if Args.KwDefaults[i] == nil {
+			continue
+		}
 		c.LoadConst(py.String(Args.Kwonlyargs[i].Arg))
 		c.Expr(Args.KwDefaults[i])
+		kwdefaults++
 	}
 
 	// Annotations
@@ -616,7 +622,6 @@ func (c *compiler) compileFunc(compilerScope compilerScopeType, Ast ast.Ast, Arg
 
 	// Make function or closure, leaving it on the stack
 	posdefaults := uint32(len(Args.Defaults))
-	kwdefaults := uint32(len(Args.KwDefaults))
 	args := uint32(posdefaults + (kwdefaults << 8) + (num_annotations << 16))
 	c.makeClosure(newC.Code, args, newC, newC.qualname)
 
